@@ -1618,7 +1618,7 @@ STATUS = {
  "C07": "Proved (hash_ok): Inv (target and store agree with the blob on the delivered set) holds initially and is preserved by every decode_ranges step, sync or fsm, on ANY stream and under any sink fault (C07_inv_step, C07_inv_history); the validator reports exactly the completely delivered groups in every reachable state (C07_validator_exact*); once the delivered set covers all chunks the state is (blob, created store) (C07_converges, C07_history_converges*). Audit additions: the frame clause made explicit relative to any initial target / store content (InvR), the exact effect of the k-th failing target write or save for both drivers, the outboard-only validators in history states, io sinks that are not pre-sized (fsm validators stay exact; the sync ones need the property's pre-sized premise: finding F9), convergence with failed, truncated or corrupted steps in the middle and from any initial content.",
  "C08": "Proved: creation sync = fsm unconditionally (C08_outboard_agree); decoding sync = fsm on EVERY stream (C08_decode_agree, C08_decode_cases); validating encoders sync = fsm under load agreement, discharged for memory and pre-sized io-backed stores (C08_encode_agree, C08_load_agree_*); the non-validating encoders equal the validating ones exactly when every touched group is fully selected, refuted otherwise = known finding F6 (C08_nonvalidating_*). The item-stream traversal yields, for any data and any store, Size, then items whose bytes are exactly the sync encoder's output, then Done / the same error (C08_encode_agree, C08_mixed_frame). Audit additions: item stream = sync encoder item by item, decode_ranges sync = fsm on every stream, all creation entry points and loaders agree, the exact output of the non-validating encoders for every query (the honest encoding of the selection widened to whole groups), finding F9.",
  "C09": "Proved (hash_ok): truncation at any byte / alteration of any byte of the honest stream yields exactly the items before it and NotFound / HashMismatch naming the item containing the byte (C09_e2e_*), io kinds by computation; no panic up to the first error (C16_total). Panic of the sync iterator polled after an error: known finding F8. Audit additions: exact location and io kind for both decode_ranges drivers, the decoder states after each kind of error, the fsm decoder never panics on any poll sequence, the plan iterator inside the decoders never panics.",
- "C10": "Proved: first-failure semantics over the per-operation call lists (surfaces, nothing after, prefix), classification of every call site, decode_ranges with failing sinks, read loops with a failing read. Partial by nature: the call lists are tied to the crate by the logged-call correspondence; OS / runtime behaviour around a failing call is outside the model. Audit additions: the k-th reader call failing over whole decoder runs (sync, fsm) and creation, failing data / outboard sources under every encoder, validator, copy and the item stream (result is exactly the io error, output a prefix), full sinks, truncated blobs.",
+ "C10": "Two strengths. (a) Operational theorems about the model of the operations: stream-read faults over whole decoder runs (sync, fsm), target / save faults of both decode_ranges drivers (exact effect), reader faults of sync outboard / outboard_post_order, failing data / outboard sources under every encoder, validator, copy and the item stream, a full sink under the sync non-validating encoder, truncated blobs. (b) Call-list level: first-failure semantics (surfaces, nothing after, prefix) and the classification of every call site are proved over the per-operation call lists of Model/IOCalls.v, which are NOT derived from the operational model but tied to the crate by the logged-call correspondence (every call of every operation, every failing index in the thorough tier): writer faults of the validating sync encoder and the fsm encoders (ConnectionReset naming the item), save / sync faults in creation and copy, reader faults in fsm creation. Failing writes are atomic in the model; OS / runtime behaviour around a failing call is outside it.",
  "C11": "Proved: the three exact-read loops, both decoders and outboard creation give schedule-independent results (Interrupted excluded for tokio read_exact, with a refuting witness). Partial by nature: poll-level suspension is exhibited by the harness only. Audit additions: sync::outboard over any schedule, std / tokio write_all and positioned read_exact_at loops over scheduled environments, the sync encoder over both.",
  "C12": "Proved unboundedly: node iterators = Shape listings, pre / post offsets = positions 0..n-1 of the persisted nodes in traversal order, nothing for nodes below the block level and the half leaf, NoDup / permutation. copy / flip: correspondence family. Audit additions: copy / copy_fsm / flip lose and invent nothing (exact outcome characterisation, node-keyed sources with holes, flip after flip is the identity, created stores stay created stores); offsets stated over the model's own iterators; the size bound is sharp (refutation above 2^63).",
  "C13": "Proved: stable iff persisted and subtree inside the blob, stable slots form a prefix, stable nodes keep slot (C13) and pair (C13_keeps_pair), stable byte prefix of post-order outboards under appends (C13_prefix). Audit additions: stability for every node id (only no-wrap), exact slot listing, stored pairs of created stores kept (all kinds, sync and fsm loaders), byte prefix for the model's writers and for chains of appends.",
